@@ -1,0 +1,17 @@
+//go:build verif
+
+package link_holdopen_controller
+
+import "github.com/aperturerobotics/controllerbus/directive"
+
+// VerifHandlerState returns the guarded fields of an establishLinkHandler
+// (the reference handler the controller attaches to EstablishLinkWithPeer).
+func VerifHandlerState(h directive.ReferenceHandler) (valCount int, hasRigidRef bool, ok bool) {
+	e, ok := h.(*establishLinkHandler)
+	if !ok {
+		return 0, false, false
+	}
+	e.mtx.Lock()
+	defer e.mtx.Unlock()
+	return e.valCount, e.rigidRef != nil, true
+}
